@@ -245,7 +245,14 @@ def run_history(case):
         cur = op[1]
         trail.append(f'set({cur})')
       elif op[0] == 'sample':
-        got = freeze(sampler.sample())
+        returned = sampler.sample()
+        got = freeze(returned)
+        # what the caller does with the list it was handed (trimming, sorting
+        # it in place) is the caller's business: a later request for any round
+        # must not be affected by it
+        if isinstance(returned, list):
+          del returned[len(returned) // 2:]
+          returned.reverse()
         what = f'round {cur} after [{" ".join(trail[-8:])}]'
         require_round_ok(got, by_id, cohort, what)
         require_same(got, model(cur), 'history', what)
